@@ -15,7 +15,7 @@ import math
 import multiprocessing as mp
 import random
 
-from .. import corpus
+from .. import corpus, routes
 from ..codec import load_db, validate
 from ..common import SPEC, Check, workdir
 from ..tlc import run_tlc
@@ -27,7 +27,7 @@ def payload_of_actisense(s: str) -> bytes:
     return bytes.fromhex(s.split()[2]) if len(s.split()) > 2 else b""
 
 
-def roundtrip(dec, enc, d, payload: bytes):
+def roundtrip(dec, enc, d, payload: bytes, route: str = "actisense"):
     """returns None if the decoder does not accept the payload (outside the domain)"""
     try:
         msg = dec.decode_basic_string(corpus.basic_string(d["pgn"], payload), already_combined=True)
@@ -39,7 +39,8 @@ def roundtrip(dec, enc, d, payload: bytes):
         if isinstance(f.value, float) and not math.isfinite(f.value):
             return None                     # non-finite floats are excepted by the property
     try:
-        out = payload_of_actisense(enc.encode_actisense(msg))
+        out = payload_of_actisense(enc.encode_actisense(msg)) if route == "actisense" else \
+            routes.wire_payload(enc, route, msg, d["fast"] == "fast")
     except Exception as e:                 # noqa: BLE001
         return {"id": d["id"], "p": list(payload), "ret": "err", "e": [], "err": f"{type(e).__name__}: {e}"[:200]}
     return {"id": d["id"], "p": list(payload), "ret": "enc", "e": list(out), "err": ""}
@@ -120,6 +121,22 @@ def bind(chk: Check, tier: str, seed: int):
                 encoded_by_def[d["id"]] = encoded_by_def.get(d["id"], 0) + 1
             recs.append(o)
             meta.append((d["id"], tag))
+    # the other encode routes (EByte, USB and Yacht Devices packets; the payload is reassembled from the frames), each with one
+    # long-lived encoder that meets the definitions in database order - the definitions of one PGN number one after the other
+    route_encs = {r: NMEA2000Encoder() for r in routes.ROUTES[1:]}
+    n_routes = 0
+    for d in encodable:
+        for tag, payload in (("base", corpus.build_payload(d, {})), ("rand", corpus.build_payload(d, {}, rng))):
+            ref = roundtrip(dec, enc, d, payload)
+            if ref is None or ref["ret"] != "enc":
+                continue                     # (judged above; the routes are compared where the plain route encodes)
+            for r in routes.ROUTES[1:]:
+                o = roundtrip(dec, route_encs[r], d, payload, r)
+                if o is not None:
+                    recs.append(o)
+                    meta.append((d["id"], f"{tag}/via-{r}"))
+                    n_routes += 1
+    chk.add(payloads_through_other_encode_routes=n_routes)
     # every key of every lookup table once, through an encodable definition (decode by table, encode by raw value)
     for d, tag, payload in corpus.table_sweep(db, lambda d: d["encodable"]):
         o = roundtrip(dec, enc, d, payload)
